@@ -295,3 +295,29 @@ impl Monitor for C20 {
         out
     }
 }
+
+/// small string workload for the Miri add-on (no Ontology involved)
+pub fn lite_case(label: &str, seed: u64) -> CaseOut {
+    let mut out = CaseOut::new();
+    if label.starts_with("numeric") {
+        return C20.run_case("numeric:0", seed, Tier::Quick);
+    }
+    let mut rng = Rng::for_case(seed, "C20", label);
+    let pool: [&str; 16] = ["0", "1", "9", "7", "H", "P", ":", "+", "-", " ", "é", "ß", "€", "漢", "😀", "a"];
+    for _ in 0..20 {
+        let n = rng.urange(0, 12);
+        let mut s = String::new();
+        for i in 0..n {
+            if i >= 3 && rng.chance(1, 2) {
+                s.push_str(*rng.pick(&pool[0..4]));
+            } else {
+                s.push_str(*rng.pick(&pool));
+            }
+        }
+        check_str(&s, &mut out);
+    }
+    for _ in 0..5 {
+        check_id(rng.next_u64() as u32, &mut out);
+    }
+    out
+}
